@@ -174,6 +174,7 @@ func checkC13(p *Prog, r *Report) {
 	c13Gate(p, r, cl, recv)
 	c13Codec(p, r, cl, recv)
 	c13Names(p, r)
+	c13LookupKeys(p, r)
 }
 
 func c13Gate(p *Prog, r *Report, cl *types.Named, recv *ssa.Function) {
@@ -473,4 +474,54 @@ func c13Names(p *Prog, r *Report) {
 		}
 	})
 	r.check(uses, rule, "SUPPORTED.COMPRESSION", p.Pos(recv.Pos()), "", "SUPPORTED does not advertise codecs.CompressionNames under COMPRESSION")
+}
+
+// c13LookupKeys: every lookup in a table of codecs keyed by compression name, on the
+// client side and on the backend side, lower-cases the name first.  The two sides must
+// agree: the client side accepts "LZ4", stores the name as given, and the backend session is
+// configured with that same string.
+func c13LookupKeys(p *Prog, r *Report) {
+	const rule = "C13.lookup-keys"
+	r.Rule(rule, "every lookup in a codec table keyed by compression name uses the lower-cased name (tables have lower-case keys): the client-facing STARTUP and the backend handshake accept exactly the same spellings")
+	n := 0
+	var bad []string
+	for _, fn := range p.ScopedFuncs("proxy", "proxycore", "codecs") {
+		eachInstr(fn, func(in ssa.Instruction) {
+			lk, ok := in.(*ssa.Lookup)
+			if !ok {
+				return
+			}
+			isTable := false
+			for _, o := range origins(lk.X) {
+				if ld, ok := o.(*ssa.UnOp); ok {
+					if g, ok := ld.X.(*ssa.Global); ok && strings.Contains(g.Name(), "Compression") {
+						if mt, ok := g.Type().(*types.Pointer).Elem().Underlying().(*types.Map); ok {
+							if b, ok := mt.Key().Underlying().(*types.Basic); ok && b.Kind() == types.String {
+								isTable = true
+							}
+						}
+					}
+				}
+			}
+			if !isTable {
+				return
+			}
+			n++
+			okKey := false
+			for _, o := range origins(lk.Index) {
+				switch x := o.(type) {
+				case *ssa.Const:
+					okKey = true
+				case *ssa.Call:
+					if callIsFunc(x, "strings", "ToLower") {
+						okKey = true
+					}
+				}
+			}
+			if !okKey {
+				bad = append(bad, fmt.Sprintf("%s: %s looks the compression name up as given (%s), without lower-casing it: a spelling accepted on the other side of the proxy is refused here", p.Pos(lk.Pos()), fn.Name(), valDesc(lk.Index)))
+			}
+		})
+	}
+	r.check(len(bad) == 0 && n >= 2, rule, "compression table lookups", "", fmt.Sprintf("%d lookups", n), strings.Join(dedupe(bad), " || "))
 }
